@@ -182,6 +182,9 @@ pub struct Sess {
     /// sessions merge into one host session, so publish-order ids say nothing until the next
     /// accepted NBIRTH
     pub order_suspended: std::collections::HashSet<String>,
+    /// the case is a fault-free stream delivered strictly in publish order: every message is
+    /// applied by the line that delivers it (desc prefix `ordered inorder`)
+    pub inorder: bool,
     host_online: bool,
     pub clean: bool,                                // the generator promises a fault-free history
     pub ncmds: u64,
@@ -240,6 +243,10 @@ async fn start_app(cfgw: &[&str], reset_clock: bool, strict: bool) -> (Hub, Even
     tokio::spawn(app.run());
     feeder.push(Event::Online);
     settle().await;
+    if kv(cfgw, "tf") == Some("1") {
+        // the client's request queue is "full" from now on: try_ calls fail, blocking calls get through
+        hub.default_try(Some(crate::mock::Decision::Reject));
+    }
     if reset_clock {
         set_clocks(now);
     }
@@ -314,6 +321,7 @@ impl Sess {
             reseq_on: num(w, "rq") == 1,
             ordered_ids: false,
             order_suspended: Default::default(),
+            inorder: false,
             host_online: true,
             clean: false,
             ncmds: 0,
@@ -340,6 +348,8 @@ impl Sess {
         let obs = self.hub.trace_from(self.mark);
         self.mark = self.hub.trace_len();
         let mut v: Vec<(String, String)> = vec![];
+        // calls the client refused at once (a try_ call meeting a full request queue, `tf=1`)
+        let refused: BTreeSet<usize> = obs.iter().filter_map(|o| if let Obs::Resolved(id, false) = o { Some(*id) } else { None }).collect();
         for o in obs {
             match o {
                 Obs::Note(s) => {
@@ -356,7 +366,12 @@ impl Sess {
                                 && p.metrics[0].name.as_deref() == Some("Node Control/Rebirth")
                                 && p.metrics[0].value == Some(metric::Value::BooleanValue(true))
                         });
-                        v.push((n, if ok == Some(true) { "ncmd".into() } else { "ncmd?".into() }));
+                        if refused.contains(&id) {
+                            // handed over by a call that could not wait: nothing was published
+                            v.push((n, "ncmdLost".into()));
+                        } else {
+                            v.push((n, if ok == Some(true) { "ncmd".into() } else { "ncmd?".into() }));
+                        }
                     }
                 }
                 _ => {}
@@ -420,6 +435,20 @@ impl Sess {
         let ts = kv(w, "ts").map(|x| x.parse::<u64>().unwrap());
         if kv(w, "nl") == Some("1") {
             self.order_suspended.insert(target.clone().unwrap());
+        }
+        // C05, last sentence, on a stream delivered in publish order: nothing is withheld
+        if self.inorder && w[1] == "ev" && matches!(w[3], "ndata" | "dbirth" | "ddata") {
+            if let Some(id) = kv(w, "id").and_then(|x| x.parse::<i64>().ok()).filter(|x| *x > 0) {
+                let n = target.clone().unwrap();
+                let want = match w[3] {
+                    "ndata" => format!("nodeData({})", id),
+                    "dbirth" => format!("devBirth({},{},1)", kv(w, "dev").unwrap(), id),
+                    _ => format!("devData({},{})", kv(w, "dev").unwrap(), id),
+                };
+                if !effs.iter().any(|(m, e)| *m == n && *e == want) {
+                    out.fail("C05:prompt-apply", &format!("in-order-stream:{}", w[3]), format!("{} => {:?}: expected {}", op, effs, want));
+                }
+            }
         }
         // old messages are discarded (C06, third sentence)
         if w[1] == "ev" && w[3] != "nbirth" && w[3] != "ndeath" {
@@ -505,6 +534,7 @@ impl Sess {
                     }
                 }
                 "ncmd?" => out.fail("C07:ncmd-is-rebirth-command", "payload", op.to_string()),
+                "ncmdLost" => out.fail("C07:ncmd-published", "non-waiting-call-on-full-queue", format!("{} => {:?}: the rebirth NCMD was handed over by a try_ call and refused by the full client queue", op, effs)),
                 _ => {}
             }
             // C05: applied in publisher order, at most once. The generators number the messages
@@ -1139,7 +1169,13 @@ fn soup_case(out: &mut Out, syms: &[usize], cfg: &str, stat: &str) {
 /// Scripted trigger scenarios (C07 first sentence): every listed trigger, with its reason
 /// enabled and no cooldown, makes the host hold the node stale and publish exactly one NCMD.
 fn trigger_scenarios(out: &mut Out) {
-    let cfg = "ip=1 bd=1 un=1 ud=1 um=1 rf=1 rs=1 to=100 cd=0 rq=1 q=1024";
+    trigger_scenarios_with(out, "ip=1 bd=1 un=1 ud=1 um=1 rf=1 rs=1 to=100 cd=0 rq=1 q=1024");
+    // the same with a client whose request queue is full (try_ calls fail at once, blocking calls
+    // wait and get through): the rebirth NCMD must still go out
+    trigger_scenarios_with(out, "ip=1 bd=1 un=1 ud=1 um=1 rf=1 rs=1 to=100 cd=0 rq=1 q=1024 tf=1");
+}
+
+fn trigger_scenarios_with(out: &mut Out, cfg: &str) {
     let t0 = 1_000_000u64;
     let birth = format!("ev n1 nbirth ts={} bd=3 id=1 ans=ok", t0);
     let db = format!("ev n1 dbirth dev=1 seq=1 ts={} id=2 ans=ok", t0 + 1);
@@ -1327,6 +1363,64 @@ fn late_duplicate_scenario(out: &mut Out, to: &str) {
     c.out.count("late-duplicate");
 }
 
+/// a long fault-free session delivered in order: every verb lands on every position of the 8-bit
+/// sequence space, in particular a DBIRTH / DDEATH / DDATA / NDATA carrying seq 0 after the wrap
+fn wrap_verbs_scenario(out: &mut Out) {
+    for shift in 0..4u64 {
+        let cfg = cfg_default("-", 0, 1);
+        let t0 = 1_000_000;
+        let mut c = Case::begin(out, &cfg, t0);
+        c.out.set_desc("ordered inorder wrap-verbs".into());
+        c.sess.ordered_ids = true;
+        c.sess.inorder = true;
+        c.op(&format!("ev n1 nbirth ts={} bd=3 id=1 ans=ok", t0));
+        c.op(&format!("ev n1 dbirth dev=1 seq=1 ts={} id=2 ans=ok", t0 + 1));
+        // seq k carries verb (k + shift) mod 4: ndata, ddata dev 1, dbirth dev 2 (re-announced), ddata dev 2
+        let mut dev2 = false;
+        for k in 2..=520u64 {
+            let (seq, ts, id) = (k % 256, t0 + k, k + 1);
+            match (k + shift) % 4 {
+                0 => c.op(&format!("ev n1 ndata seq={} ts={} id={} ans=ok", seq, ts, id)),
+                1 => c.op(&format!("ev n1 ddata dev=1 seq={} ts={} id={} ans=ok", seq, ts, id)),
+                2 => {
+                    dev2 = true;
+                    c.op(&format!("ev n1 dbirth dev=2 seq={} ts={} id={} ans=ok", seq, ts, id))
+                }
+                _ if dev2 => c.op(&format!("ev n1 ddata dev=2 seq={} ts={} id={} ans=ok", seq, ts, id)),
+                _ => c.op(&format!("ev n1 ndata seq={} ts={} id={} ans=ok", seq, ts, id)),
+            };
+        }
+        c.out.nontrivial();
+        c.out.count("wrap-verbs");
+    }
+}
+
+/// an invalid payload leaves the host's state untouched, also for a node it has never seen: with the
+/// invalid_payload switch off no node is created, and the node's next well-formed message is still
+/// "data from an unknown node"
+fn invalid_unknown_node_scenario(out: &mut Out) {
+    for (cfg, expect_ncmd) in [
+        ("ip=0 bd=1 un=1 ud=1 um=1 rf=1 rs=0 to=100 cd=0 rq=1 q=1024", true),
+        ("ip=0 bd=1 un=0 ud=1 um=1 rf=1 rs=1 to=100 cd=0 rq=1 q=1024", false),
+    ] {
+        let t0 = 1_000_000;
+        let mut c = Case::begin(out, cfg, t0);
+        c.out.set_desc("invalid-payload-unknown-node".into());
+        let a = c.op("inv n1");
+        if a != "-" {
+            c.out.fail("C14:invalid-leaves-state-untouched", "unknown-node-created", format!("inv n1 on a fresh host => {}", a));
+        }
+        let before = c.sess.ncmds;
+        let a = c.op(&format!("ev n1 ndata seq=1 ts={} id=5 ans=ok", t0 + 1));
+        let got = c.sess.ncmds - before;
+        if (got == 1) != expect_ncmd {
+            c.out.fail("C14:invalid-leaves-state-untouched", "unknown-node-reason-changed", format!("first well-formed message of the node after its invalid payload => {} ({} NCMD, expected {})", a, got, expect_ncmd as u8));
+        }
+        c.out.nontrivial();
+        c.out.count("invalid-unknown-node");
+    }
+}
+
 pub const RULE: &str = "host histories through the real Application (paused tokio time, mock clock, recording stores): (a) fault-free multi-node multi-device streams with several sessions/rebirths each, sequence wrap included, every message delivered once within a bounded displacement (oracles: no NCMD, promptness, order); (b) the same with duplicates, losses, NDEATHs with matching/non-matching bdSeq, host offline/online, late old-session deliveries, unknown nodes/devices, store rejections, replayed NBIRTHs, invalid payloads, virtual time advanced to just before/after the reorder timeout, random rebirth switches, cooldown 0 / finite / longer than the run, timeout present/absent, resequencing on/off, node-queue sizes 1/2/1024; (c) every event sequence of length <= L over a 15-symbol single-node alphabet, for two configurations; (d) scripted trigger scenarios, node-clock-ahead/behind probes, a late duplicate followed by 300 messages. Non-trivial = at least two deliveries; distinct = distinct request-line sequences (hashed).";
 
 pub fn run(args: &Args, out: &mut Out) -> &'static str {
@@ -1336,6 +1430,8 @@ pub fn run(args: &Args, out: &mut Out) -> &'static str {
     skew_scenarios(out, &mut rng);
     late_duplicate_scenario(out, "-");
     late_duplicate_scenario(out, "100");
+    wrap_verbs_scenario(out);
+    invalid_unknown_node_scenario(out);
     // (c) exhaustive soups
     let l = if th { 4 } else { 3 };
     for cfg in [cfg_default("100", 0, 1), "ip=1 bd=1 un=1 ud=1 um=1 rf=1 rs=1 to=- cd=1000000000 rq=1 q=1024".to_string()] {
@@ -1392,6 +1488,7 @@ pub fn replay(desc: &str, lines: &[String], out: &mut Out) {
             // "clean": the history is fault-free and every gap closes before the timeout
             s.clean = desc.starts_with("clean");
             s.ordered_ids = desc.starts_with("clean") || desc.starts_with("ordered");
+            s.inorder = desc.starts_with("ordered inorder");
             sess = Some(s);
             out.begin_case(l, "ok");
             out.set_desc(desc.to_string());
